@@ -1,5 +1,5 @@
 (* C03: accessors in requested units = permanent conversion + native read; selection; linear interpolation. *)
-From Coq Require Import Reals Lra QArith Qreals ZArith String List Bool Sorted.
+From Coq Require Import Reals Lra Lia QArith Qreals ZArith String List Bool Sorted.
 From PG Require Import Lib.Num Lib.Py Lib.Tac Gen.UnitsGen1 Units.AdsOracle Gen.UnitsGen2 Units.UnitsSpec
   Units.PressureProofs Units.LoadingPhys Units.MaterialProofs Units.C01Theorems Iso.IsoState Gen.IsoGen Iso.IsoSpec
   Iso.ConvPressure Iso.ConvLoading Iso.ConvMaterial Iso.IsoAccess Iso.AccessFactor.
@@ -131,14 +131,10 @@ Proof.
   destruct (map (p_of RNum) rs) as [|x xs]; [auto|].
   match goal with |- bind ?m _ = _ -> _ => destruct m as [r'|e] end; [|discriminate]. cbn. auto.
 Qed.
-(* the `limits and any(limits)` idiom: a bound equal to 0 counts as "no bound given" *)
-Theorem limits_all_falsy_select_everything_refuted :
-  forall xs : list R, select_limits RNum (Some (Some 0, Some 0)) xs = xs /\ select_limits RNum (Some (None, Some 0)) xs = xs.
-Proof.
-  intro xs. unfold select_limits, limits_active, num_truthy. cbn [neqb RNum nofQ].
-  assert (E : Reqb 0 (Q2R 0) = true) by (apply Reqb_true; unfold Q2R; simpl; lra).
-  rewrite E. split; reflexivity.
-Qed.
+(* a bound equal to 0 is a bound (repaired in /repo by "fix: limits with a bound equal to 0 ..."; before, `any(limits)` dropped it) *)
+Theorem zero_limits_are_limits (s : iso RNum) b pu pm :
+  iso_pressure RNum s b pu pm (Some (Some 0, Some 0)) = res_map (filter (between RNum (Some 0) (Some 0))) (iso_pressure RNum s b pu pm None).
+Proof. apply limits_select_is_filter. reflexivity. Qed.
 Lemma filter_in_order (f : R -> bool) xs : forall x, In x (filter f xs) <-> In x xs /\ f x = true.
 Proof. intro x. apply filter_In. Qed.
 
@@ -271,22 +267,39 @@ Proof.
 Qed.
 
 (* ------------------------------------------------------------------ the branch guess (math_utilities.split_ads_data) *)
-(* inflexion = position of the first maximum + 1; `if inflexion == data.index[0]` compares a POSITION with a row LABEL *)
+(* inflexion = position of the first maximum + 1; all adsorption when the maximum is last, all desorption when it is first
+   (repaired in /repo: the test used to compare the position with the first row LABEL) *)
 Fixpoint argmax_from (best : R) (besti i : nat) (l : list R) : nat :=
   match l with [] => besti | x :: r => if Rlt_dec best x then argmax_from x i (S i) r else argmax_from best besti (S i) r end.
 Definition first_argmax (l : list R) : nat := match l with [] => 0%nat | x :: r => argmax_from x 0 1 r end.
-Definition split_model (first_label : Z) (ps : list R) : list bool :=
-  let n := length ps in
-  let infl := S (first_argmax ps) in
-  if Nat.eqb infl n then repeat false n
-  else let infl' := if Z.eqb (Z.of_nat infl) first_label then 0%nat else infl in
-       repeat false infl' ++ repeat true (n - infl').
-Theorem split_depends_on_labels_refuted :
-  split_model 0 [3; 2; 1] <> split_model 1 [3; 2; 1].
+Definition split_point (ps : list R) : nat :=
+  let n := length ps in let infl := S (first_argmax ps) in
+  if Nat.eqb infl n then n else if Nat.eqb infl 1 then 0%nat else infl.
+Definition split_model (ps : list R) : list bool := repeat false (split_point ps) ++ repeat true (length ps - split_point ps).
+Lemma argmax_from_lt best besti i l : (besti < i)%nat -> (argmax_from best besti i l < i + length l)%nat.
 Proof.
-  unfold split_model, first_argmax. cbn [length argmax_from].
-  destruct (Rlt_dec 3 2) as [H|_]; [lra|]. cbn [argmax_from]. destruct (Rlt_dec 3 1) as [H|_]; [lra|].
-  cbn. discriminate.
+  revert best besti i. induction l as [|x r IH]; intros best besti i H; cbn [argmax_from length]; [lia|].
+  destruct (Rlt_dec best x); [specialize (IH x i (S i))|specialize (IH best besti (S i))]; lia.
+Qed.
+(* the guess is a function of the pressure sequence alone and has the shape "adsorption ... then desorption ..." with one row per point *)
+Theorem split_shape (ps : list R) : ps <> [] ->
+  (split_point ps <= length ps)%nat /\ length (split_model ps) = length ps.
+Proof.
+  intro Hne. assert (H : (split_point ps <= length ps)%nat).
+  { unfold split_point. destruct ps as [|x r]; [congruence|]. cbn [first_argmax length].
+    pose proof (argmax_from_lt x 0 1 r ltac:(lia)) as Hlt.
+    destruct (Nat.eqb _ _) eqn:E1; [lia|]. destruct (Nat.eqb (S (argmax_from x 0 1 r)) 1); lia. }
+  split; [exact H|]. unfold split_model. rewrite app_length, !repeat_length. lia.
+Qed.
+Theorem split_maximum_last_is_all_adsorption : split_model [1; 2; 3] = [false; false; false].
+Proof.
+  unfold split_model, split_point, first_argmax. cbn [length argmax_from].
+  destruct (Rlt_dec 1 2) as [_|H]; [|lra]. cbn [argmax_from]. destruct (Rlt_dec 2 3) as [_|H]; [|lra]. reflexivity.
+Qed.
+Theorem split_maximum_first_is_all_desorption : split_model [3; 2; 1] = [true; true; true].
+Proof.
+  unfold split_model, split_point, first_argmax. cbn [length argmax_from].
+  destruct (Rlt_dec 3 2) as [H|_]; [lra|]. cbn [argmax_from]. destruct (Rlt_dec 3 1) as [H|_]; [lra|]. reflexivity.
 Qed.
 
 (* ------------------------------------------------------------------ stored fraction / percent with material arguments *)
